@@ -35,13 +35,19 @@ def run_seed(name, checks, tiers):
     meta = json.load(open(os.path.join(sdir, "meta.json")))
     prop = meta["property"]
     if not checks:
-        checks = [prop] + [c for c in meta.get("also_check", [])]
+        extra = os.path.join(sdir, "also_check")
+        checks = [prop] + (open(extra).read().split() if os.path.exists(extra) else [])
     work = os.path.join(ROOT, name)
     shutil.rmtree(work, ignore_errors=True)
     os.makedirs(work)
     vcopy = os.path.join(work, "verif")
     rcopy = os.path.join(work, "repo")
-    sh(f"rsync -a --exclude .git --exclude replays --exclude seeded --exclude '.cache/run' {VERIF}/ {vcopy}/")
+    # tracked files come from the last COMMIT of /verif (a consistent state even while the live tree
+    # is being edited); build caches are copied from the live tree to save rebuild time
+    os.makedirs(vcopy)
+    sh(f"git -C {VERIF} archive HEAD | tar -x -C {vcopy}")
+    sh(f"mkdir -p {vcopy}/.cache {vcopy}/lean && rsync -a {VERIF}/.cache/target {VERIF}/.cache/target-concurrent {vcopy}/.cache/ ; "
+       f"rsync -a {VERIF}/lean/.lake {vcopy}/lean/ ; cp {VERIF}/harness/Cargo.lock {vcopy}/harness/ 2>/dev/null")
     rc, out = sh(f"git -C /repo worktree add --detach {rcopy} HEAD")
     if rc != 0:
         return {"name": name, "error": "worktree: " + out}
